@@ -615,6 +615,54 @@ theorem C08_unary_error_metadata_partial (respmd stmd : HMap) (k : Bytes) (hk : 
   rw [HMap.getAll_extend, hiff, hr]
   constructor <;> intro h <;> simp [h]
 
+/-! ## dimension audit (aC08): OK trailers that carry metadata; `set_timeout` -/
+
+/-- NOT true of the code (finding C08-F3, the success-path twin of C08-F1): a unary /
+client-streaming client has ONE metadata map for the response headers and the trailers, and
+`parts.merge(trailers)` replaces: a response-header entry whose name also occurs in the trailers
+is lost.  Witness: headers `x-a: 1`, OK trailers `x-a: 2` — the caller sees `x-a = [2]`, not
+`[1, 2]`. -/
+theorem C08_unary_ok_trailer_collision_fails :
+    ¬ ∀ (respmd tr : HMap) (k : Bytes), k ∉ Spec.Metadata.reserved →
+        HMap.getAll k (clientUnaryOkMetadata respmd tr) = HMap.getAll k respmd ++ HMap.getAll k tr := by
+  intro h
+  have := h [(HMap.name "x-a", [49])] [(HMap.name "x-a", [50])] (HMap.name "x-a") (by decide)
+  revert this
+  decide
+
+/-- … and exactly then: under every custom name that does not occur in the trailers the caller
+sees the response's values unchanged, under every name of the trailers the trailers' values, in
+order — so every trailer entry always arrives, and a response entry is lost only to a trailer
+entry of the same name. -/
+theorem C08_unary_ok_trailers_partial (respmd tr : HMap) (k : Bytes) (hk : k ∉ Spec.Metadata.reserved) :
+    (HMap.hasKey k tr = false → HMap.getAll k (clientUnaryOkMetadata respmd tr) = HMap.getAll k respmd) ∧
+    (HMap.hasKey k tr = true → HMap.getAll k (clientUnaryOkMetadata respmd tr) = HMap.getAll k tr) := by
+  have hr := (C08_preserved_response respmd k hk).1
+  unfold clientUnaryOkMetadata
+  rw [HMap.getAll_extend, hr]
+  constructor <;> intro h <;> simp [h]
+
+/-- `Request::set_timeout` touches the name `grpc-timeout` only: every other name keeps its values,
+whatever the duration and whatever the map (so calling it before or after attaching metadata, or
+twice, loses no entry). -/
+theorem C08_set_timeout_keeps_other_entries (value : Bytes) (md : HMap) (k : Bytes) (hk : k ≠ HMap.name "grpc-timeout") :
+    HMap.getAll k (setTimeout value md) = HMap.getAll k md ∧
+    HMap.getAll k (setTimeout value (setTimeout value md)) = HMap.getAll k md := by
+  unfold setTimeout
+  rw [HMap.getAll_insert_ne _ _ _ _ hk, HMap.getAll_insert_ne _ _ _ _ hk, HMap.getAll_insert_ne _ _ _ _ hk]
+  exact ⟨rfl, rfl⟩
+
+/-- The contract of `MetadataMap::merge`, wherever it is used (OK trailers into response headers,
+response headers into an error status, request trailers into request headers — also for what a
+peer that is not tonic sends): a name of `other` arrives with exactly `other`'s values in order,
+every other name keeps its values; no name gains or loses anything else. -/
+theorem C08_merge_contract (into other : HMap) (k : Bytes) :
+    (HMap.hasKey k other = true → HMap.getAll k (merge into other) = HMap.getAll k other) ∧
+    (HMap.hasKey k other = false → HMap.getAll k (merge into other) = HMap.getAll k into) := by
+  unfold merge
+  rw [HMap.getAll_extend]
+  constructor <;> intro h <;> simp [h]
+
 /-! ## non-vacuity -/
 
 example : Spec.Metadata.isBinName (HMap.name "x-trace-bin") = true ∧ Spec.Metadata.isBinName (HMap.name "x-bin-x") = false ∧
